@@ -483,7 +483,7 @@ var _ = dtpb.Date_DAY
 
 func TestC02(t *testing.T) {
 	r := newRec("C02",
-		"a case is one generated resource (type drawn uniformly from the 146 R4 types, fields populated by a descriptor walk); every element path of its google/fhir JSON rendering is evaluated un-indexed, fully indexed, mixed, without the root type, with a mismatching root, with `.value` on date/time leaves and with non-element names appended; an evaluation is one (resource, source string); non-trivial = path length ≥ 2 selecting ≥ 1 node (or a negative program on a non-empty parent); distinct = FNV-64 of (resource text, source)",
+		"a case is one generated resource (30% of them with 1–3 positions rewired to hold a message object that also sits elsewhere in the resource: shared sub-messages, which the text form cannot express and which are applied from a number stored in the case; type drawn uniformly from the 146 R4 types, fields populated by a descriptor walk); every element path of its google/fhir JSON rendering is evaluated un-indexed, fully indexed, mixed, without the root type, with a mismatching root, with `.value` on date/time leaves and with non-element names appended; an evaluation is one (resource, source string); non-trivial = path length ≥ 2 selecting ≥ 1 node (or a negative program on a non-empty parent); distinct = FNV-64 of (resource text, source)",
 		"google/fhir jsonformat defines the FHIR JSON rendering", "un-indexed spellings are asserted only where every prefix selects nodes of one type (the statement is silent on heterogeneous collections)", "fraction digits beyond milliseconds are outside System DateTime/Time")
 	runProperty(t, r,
 		Stage[c02Case]{Name: "resources", Gen: c02Gen, Run: c02Run, N: pick(600, 4000)},
